@@ -166,6 +166,17 @@ func reopenOn(src vfs.FS, node enode.ID, capMB uint64) reopenObs {
 			o.err = "open:" + err.Error()
 			return
 		}
+		// a store that is over its capacity prunes on open and hands the range to a detached compaction: such a database is
+		// left open (closing it under that goroutine would take the process down); every other one is closed when it has been
+		// looked at - there are more than a thousand of them, each with a memtable and a cache of its own
+		overCap := false
+		if v, closer, gerr := db.Get(storage.SizeKey); gerr == nil {
+			overCap = len(v) == 8 && binary.BigEndian.Uint64(v) > capMB*1000_000
+			closer.Close()
+		}
+		if !overCap {
+			defer func() { _ = db.Close() }()
+		}
 		st, err := spebble.NewStorage(storage.PortalStorageConfig{StorageCapacityMB: capMB, NodeId: node, NetworkName: "crash"}, db)
 		if err != nil {
 			o.err = "newstorage:" + err.Error()
